@@ -8,9 +8,10 @@
    model) and otherwise goes through the characterising lemmas of Proofs/C06_GenRt.v, so that
    renamed locals, hoisted pure subexpressions (`let`), an index loop instead of a comprehension
    and similar rewrites of the source do not break it. *)
-From Coq Require Import List Bool Arith QArith Lia Permutation.
+From Coq Require Import List Bool Arith ZArith QArith Qround Lia Permutation Sorted.
 From DV Require Import Base.PyList Base.C06_Py Model.C06_Select Model.C06_GenRt.
-From DV Require Import Proofs.C06_Sort Proofs.C06_Basic Proofs.C06_Roulette Proofs.C06_GenRt.
+From DV Require Import Proofs.C06_Sort Proofs.C06_Basic Proofs.C06_Roulette Proofs.C06_SUS Proofs.C06_Lexicase
+  Proofs.C06_DCD Proofs.C06_Safety Proofs.C06_GenRt.
 From DV Require Import Gen.C06_gen.
 Import ListNotations.
 Local Open Scope nat_scope.
@@ -194,7 +195,7 @@ Lemma sus_equiv w inds k
     (t <- mapM (fun x => index (values w x) 0) inds ;;
      if Nat.eqb k 0 then ret [] else
      distance <- qdivM (qsum t) (Qnat k) ;;
-     start <- uniform (0 # 1) distance ;;
+     start <- uniformM (0 # 1) distance ;;
      chosen <- for_each (map (fun i => start + Qnat i * distance)%Q (seq 0 k)) (fun p chosen =>
                  t5 <- index (py_sorted_rev f_lt inds) 0 ;; sum_ <- index (values w t5) 0 ;;
                  bind (while_fuel (S (length (py_sorted_rev f_lt inds))) (fun '(_, sum_) => Qltb sum_ p) body (0, sum_))
@@ -210,7 +211,7 @@ Proof.
   { rewrite (forallb_perm _ _ _ (py_sorted_rev_perm f_lt inds)). exact Hall. }
   destruct (Nat.eqb_spec k 0) as [->|Hk]; [reflexivity|].
   unfold bind at 1. rewrite (qdivM_ok _ _ ds (Qnat_neq0 k Hk)).
-  unfold uniform. rewrite bind_assoc. apply bind_ext. intros u d. rewrite bind_ret_l.
+  unfold uniformM. rewrite bind_assoc. apply bind_ext. intros u d. rewrite bind_ret_l.
   rewrite for_each_append_nil with (f := sus_pick w (py_sorted_rev f_lt inds)); [reflexivity|].
   intros p acc d' _. apply (sus_pointer w p _ body Hs Hb).
 Qed.
@@ -365,4 +366,185 @@ Proof.
           destruct (Nat.eqb k (length inds) && negb (Nat.eqb (k mod 4) 0)); [reflexivity|];
           apply bind_ext; intros l1 d1; apply bind_ext; intros l2 d2;
           apply dcd_equiv; intros i acc d; dcd_body ].
+Qed.
+
+(* ------------------------------------------------------------------ lexicase family *)
+Lemma gen_selLexicase_eq w inds k ds : uniform w inds -> gen_selLexicase w inds k ds = selLexicase w inds k ds.
+Proof. intro U. first [ reflexivity ]. Qed.
+
+Lemma gen_selEpsilonLexicase_eq w inds k eps ds :
+  uniform w inds -> gen_selEpsilonLexicase w inds k eps ds = selEpsilonLexicase w inds k eps ds.
+Proof. intro U. first [ reflexivity ]. Qed.
+
+Lemma gen_selAutomaticEpsilonLexicase_eq w inds k ds :
+  uniform w inds -> gen_selAutomaticEpsilonLexicase w inds k ds = selAutomaticEpsilonLexicase w inds k ds.
+Proof. intro U. first [ reflexivity ]. Qed.
+
+(* ================================================================== the source is the model *)
+Theorem source_is_model :
+  (forall inds k ds, gen_selRandom inds k ds = selRandom inds k ds) /\
+  (forall inds k ds, gen_selBest inds k ds = Ok (selBest inds k) ds) /\
+  (forall inds k ds, gen_selWorst inds k ds = Ok (selWorst inds k) ds) /\
+  (forall inds k ts ds, gen_selTournament inds k ts ds = selTournament inds k ts ds) /\
+  (forall w inds k ds, gen_selRoulette w inds k ds = selRoulette w inds k ds) /\
+  (forall w inds k ds, gen_selStochasticUniversalSampling w inds k ds = selSUS w inds k ds) /\
+  (forall inds k fs ps ff ds, gen_selDoubleTournament inds k fs ps ff ds = selDoubleTournament inds k fs ps ff ds) /\
+  (forall w inds k ds, uniform w inds -> gen_selLexicase w inds k ds = selLexicase w inds k ds) /\
+  (forall w inds k eps ds, uniform w inds ->
+     gen_selEpsilonLexicase w inds k eps ds = selEpsilonLexicase w inds k eps ds) /\
+  (forall w inds k ds, uniform w inds ->
+     gen_selAutomaticEpsilonLexicase w inds k ds = selAutomaticEpsilonLexicase w inds k ds) /\
+  (forall inds k ds, gen_selTournamentDCD inds k ds = selTournamentDCD inds k ds).
+Proof.
+  repeat match goal with |- _ /\ _ => split end; intros.
+  - apply gen_selRandom_eq.
+  - apply gen_selBest_eq.
+  - apply gen_selWorst_eq.
+  - apply gen_selTournament_eq.
+  - apply gen_selRoulette_eq.
+  - apply gen_selSUS_eq.
+  - apply gen_selDoubleTournament_eq.
+  - apply gen_selLexicase_eq; assumption.
+  - apply gen_selEpsilonLexicase_eq; assumption.
+  - apply gen_selAutomaticEpsilonLexicase_eq; assumption.
+  - apply gen_selTournamentDCD_eq.
+Qed.
+
+(* ================================================================== the C06 theorems on the regenerated definitions *)
+Lemma gen_selRandom_spec inds k ds out rest :
+  gen_selRandom inds k ds = Ok out rest -> length out = k /\ Forall (fun x => In x inds) out.
+Proof. rewrite gen_selRandom_eq. apply selRandom_spec. Qed.
+
+Lemma gen_selBest_spec inds k ds out rest :
+  gen_selBest inds k ds = Ok out rest ->
+  rest = ds /\ length out = Nat.min k (length inds) /\
+  StronglySorted (fun a b => f_le b a = true) out /\
+  exists others, Permutation inds (out ++ others) /\ forall x y, In x others -> In y out -> f_le x y = true.
+Proof.
+  rewrite gen_selBest_eq. intro H. inversion H; subst. split; [reflexivity|]. apply (selBest_spec inds k).
+Qed.
+
+Lemma gen_selWorst_spec inds k ds out rest :
+  gen_selWorst inds k ds = Ok out rest ->
+  rest = ds /\ length out = Nat.min k (length inds) /\
+  StronglySorted (fun a b => f_le a b = true) out /\
+  exists others, Permutation inds (out ++ others) /\ forall x y, In x others -> In y out -> f_le y x = true.
+Proof.
+  rewrite gen_selWorst_eq. intro H. inversion H; subst. split; [reflexivity|]. apply (selWorst_spec inds k).
+Qed.
+
+Lemma gen_selTournament_spec inds k tournsize ds out rest :
+  gen_selTournament inds k tournsize ds = Ok out rest ->
+  length out = k /\
+  Forall (fun w => In w inds /\
+     exists aspirants d d',
+       gen_selRandom inds tournsize d = Ok aspirants d' /\
+       length aspirants = tournsize /\ Forall (fun a => In a inds) aspirants /\
+       In w aspirants /\ forall a, In a aspirants -> f_le a w = true) out.
+Proof.
+  rewrite gen_selTournament_eq. intro H. destruct (selTournament_spec _ _ _ _ _ _ H) as [L F]. split; [exact L|].
+  eapply Forall_impl; [|exact F]. intros x [Hx (asp & d & d' & Hs & R)]. split; [exact Hx|].
+  exists asp, d, d'. rewrite gen_selRandom_eq. split; assumption.
+Qed.
+
+Lemma gen_selDoubleTournament_spec inds k fitness_size parsimony_size fitness_first ds out rest :
+  gen_selDoubleTournament inds k fitness_size parsimony_size fitness_first ds = Ok out rest ->
+  (1 <= parsimony_size)%Q /\ (parsimony_size <= 2)%Q /\ length out = k /\
+  (fitness_first = true ->
+     Forall (size_winner parsimony_size (fit_winner fitness_size (fun x => In x inds))) out) /\
+  (fitness_first = false ->
+     Forall (fit_winner fitness_size (size_winner parsimony_size (fun x => In x inds))) out).
+Proof. rewrite gen_selDoubleTournament_eq. apply selDoubleTournament_spec. Qed.
+
+Lemma gen_selRoulette_spec w inds k ds out rest :
+  Forall (fun x => 0 < val0 w x)%Q inds -> inds <> [] ->
+  gen_selRoulette w inds k ds = Ok out rest ->
+  let s := py_sorted_rev f_lt inds in
+  let S := sum_fits w inds in
+  (0 < S /\ S == tot w s)%Q /\ length out = k /\ Forall (fun x => In x inds) out /\
+  exists us, ds = map DRandom us ++ rest /\
+    Forall2 (fun u x => (0 <= u /\ u < 1)%Q /\
+               exists j, nth_error s j = Some x /\
+                         (cum w s j <= u * S /\ u * S < cum w s (Datatypes.S j))%Q) us out.
+Proof.
+  intros P N. rewrite gen_selRoulette_eq. intro H.
+  destruct (selRoulette_spec w inds k ds out rest P N H) as (A & B & C & D & us & E & F).
+  cbv zeta. split; [split; assumption|]. split; [assumption|]. split; [assumption|].
+  exists us. split; [assumption|]. eapply Forall2_weaken; [|exact F].
+  cbv beta. intros u x (U0 & U1 & R). split; [split; assumption|exact R].
+Qed.
+
+Lemma gen_selSUS_k0 w inds ds :
+  forallb (has_val0 w) inds = true -> gen_selStochasticUniversalSampling w inds 0 ds = Ok [] ds.
+Proof. rewrite gen_selSUS_eq. apply selSUS_k0. Qed.
+
+Lemma gen_selSUS_spec w inds k u ds out rest :
+  Forall (fun x => 0 < val0 w x)%Q inds -> inds <> [] -> NoDup (map uid inds) -> (0 < k)%nat ->
+  gen_selStochasticUniversalSampling w inds k (DRandom u :: ds) = Ok out rest -> (0 < u)%Q ->
+  let S := sum_fits w inds in
+  rest = ds /\ (u < 1)%Q /\ (0 < S)%Q /\ length out = k /\ Forall (fun x => In x inds) out /\
+  forall x, In x inds ->
+    let share := (inject_Z (Z.of_nat k) * val0 w x / S)%Q in
+    (Qfloor share <= Z.of_nat (count_uid (uid x) out))%Z /\
+    (Z.of_nat (count_uid (uid x) out) <= Qceiling share)%Z.
+Proof. intros P N D K. rewrite gen_selSUS_eq. apply selSUS_spec; assumption. Qed.
+
+Lemma gen_selLexicase_undominated w inds k ds out rest :
+  uniform w inds -> gen_selLexicase w inds k ds = Ok out rest ->
+  length out = k /\
+  Forall (fun win => In win inds /\ forall y, In y inds -> ~ case_dominates w (length w) y win) out.
+Proof. intro U. rewrite (gen_selLexicase_eq w inds k ds U). apply selLexicase_undominated. exact U. Qed.
+
+Lemma gen_selEpsilonLexicase_partial w inds k eps ds out rest :
+  uniform w inds -> (0 <= eps)%Q -> gen_selEpsilonLexicase w inds k eps ds = Ok out rest ->
+  length out = k /\
+  Forall (fun win => In win inds /\
+            forall y, In y inds -> ~ case_dominates_beyond w (length w) eps y win) out.
+Proof. intros U E. rewrite (gen_selEpsilonLexicase_eq w inds k eps ds U). apply selEpsilonLexicase_partial; assumption. Qed.
+
+Lemma gen_eps_survivor w inds k eps ds out rest :
+  uniform w inds -> gen_selEpsilonLexicase w inds k eps ds = Ok out rest ->
+  length out = k /\ Forall (survivor_round w (step_eps eps w) (fun _ _ => eps) inds) out.
+Proof.
+  intros U. rewrite (gen_selEpsilonLexicase_eq w inds k eps ds U). intro H.
+  eapply (lexicase_gen_survivor w (step_eps eps w) (fun _ _ => eps)); eauto.
+  - apply step_eps_sub.
+  - intros; eapply step_eps_tol; eauto.
+Qed.
+
+Lemma gen_auto_eps_survivor w inds k ds out rest :
+  uniform w inds -> gen_selAutomaticEpsilonLexicase w inds k ds = Ok out rest ->
+  length out = k /\ Forall (survivor_round w (step_auto w) (mad_of w) inds) out.
+Proof.
+  intros U. rewrite (gen_selAutomaticEpsilonLexicase_eq w inds k ds U). intro H.
+  eapply (lexicase_gen_survivor w (step_auto w) (mad_of w)); eauto.
+  - apply step_auto_sub.
+  - apply step_auto_tol.
+Qed.
+
+Lemma gen_selTournamentDCD_spec inds k ds out rest :
+  NoDup (map uid inds) -> (k mod 4 = 0)%nat ->
+  gen_selTournamentDCD inds k ds = Ok out rest ->
+  (k <= length inds)%nat /\ length out = k /\ Forall (fun x => In x inds) out /\
+  forall u, (count_uid u out <= 2)%nat.
+Proof. intros N K. rewrite gen_selTournamentDCD_eq. apply selTournamentDCD_spec; assumption. Qed.
+
+(* no exception on in-scope inputs, for the regenerated definitions *)
+Lemma gen_no_raise :
+  (forall inds k ds e, inds <> [] -> gen_selRandom inds k ds <> Raise e) /\
+  (forall inds k ts ds e, inds <> [] -> (1 <= ts)%nat -> gen_selTournament inds k ts ds <> Raise e) /\
+  (forall inds k fs ps ff ds e, inds <> [] -> (1 <= fs)%nat -> (1 <= ps)%Q -> (ps <= 2)%Q ->
+     gen_selDoubleTournament inds k fs ps ff ds <> Raise e) /\
+  (forall w inds k ds e, Forall (fun x => 0 < val0 w x)%Q inds -> gen_selRoulette w inds k ds <> Raise e) /\
+  (forall w inds k ds e, Forall (fun x => 0 < val0 w x)%Q inds -> inds <> [] ->
+     gen_selStochasticUniversalSampling w inds k ds <> Raise e) /\
+  (forall inds k ds e, (k <= length inds)%nat -> (k mod 4 = 0)%nat -> gen_selTournamentDCD inds k ds <> Raise e).
+Proof.
+  repeat match goal with |- _ /\ _ => split end; intros.
+  - rewrite gen_selRandom_eq. apply selRandom_no_raise; assumption.
+  - rewrite gen_selTournament_eq. apply selTournament_no_raise; assumption.
+  - rewrite gen_selDoubleTournament_eq. apply selDoubleTournament_no_raise; assumption.
+  - rewrite gen_selRoulette_eq. apply selRoulette_no_raise; assumption.
+  - rewrite gen_selSUS_eq. apply selSUS_no_raise; assumption.
+  - rewrite gen_selTournamentDCD_eq. apply selTournamentDCD_no_raise; assumption.
 Qed.
